@@ -402,6 +402,9 @@ def st_spec(draw, tier="quick"):
                         "strip_basins": draw(st.booleans())}
     elif task == "condense":
         spec["opts"] = {"anc": draw(st.booleans()), "basins": draw(st.booleans())}
+    elif task == "join":
+        # documented optional argument: metadata written to the joined file
+        spec["opts"] = {"meta": draw(st.booleans())}
     elif task == "split":
         spec["opts"] = {"parts": draw(st.sampled_from([1, 2, 2, 3, 4])),
                         "skip": draw(st.booleans()),
@@ -448,7 +451,8 @@ def _fixed_configs():
                    table=False)
     cfgs.append({"task": "join", "opts": {}, "inputs": [j1, j2], "out": "out.rtdc",
                  "stale": {"out": None, "temp": None}})
-    cfgs.append({"task": "join", "opts": {}, "inputs": [j2, j3, j1], "out": "res.v1.rtdc",
+    cfgs.append({"task": "join", "opts": {"meta": True}, "inputs": [j2, j3, j1],
+                 "out": "res.v1.rtdc",
                  "stale": {"out": "valid", "temp": "garbage"}})
     cfgs.append({"task": "split", "opts": {"parts": 3, "skip": True, "outdir": "out"},
                  "inputs": [ds_a], "out": "out.rtdc", "stale": {"out": None, "temp": None}})
@@ -782,7 +786,11 @@ def _call(su):
         cli.condense(path_in=ins[0], path_out=su.w(su.out_arg),
                      store_ancillary_features=o["anc"], store_basin_features=o["basins"])
     elif task == "join":
-        cli.join(paths_in=[str(p) for p in ins], path_out=str(su.w(su.out_arg)))
+        kw = {}
+        if o.get("meta"):
+            kw["metadata"] = {"experiment": {"run index": 7, "sample": "vf joined"},
+                              "setup": {"medium": "water"}}
+        cli.join(paths_in=[str(p) for p in ins], path_out=str(su.w(su.out_arg)), **kw)
     elif task == "split":
         cli.split(path_in=ins[0],
                   path_out=None if su.out_arg is None else su.w(su.out_arg),
